@@ -9,6 +9,7 @@ CONSTANTS
   KF_NodeReq = TRUE
   LookupMode = "exact"
   KF_EndTest = FALSE
+  KF_WildHost = TRUE
   KF_WildNew = TRUE
 SPECIFICATION ISpec
 INVARIANTS InvCorrect InvOrder InvBuild
